@@ -40,6 +40,7 @@ type Engine struct {
 	missingContracts []string
 	closedFields     map[string]bool
 	specFields       map[string]bool
+	renamed          map[string]string // contract name -> name of the function it was re-bound to
 }
 
 const pkgPath = "github.com/jwhited/corebgp"
@@ -173,12 +174,29 @@ func (e *Engine) loadSpecs(externDir string) error {
 			return err
 		}
 	}
+	var gone []string
 	for name := range e.spec.Contracts {
 		if _, ok := e.funcs[name]; !ok {
-			// the contracted function no longer exists (renamed/removed): every
-			// property whose cone lists it reports a missing anchor
-			e.missingContracts = append(e.missingContracts, name)
+			gone = append(gone, name)
 		}
+	}
+	sort.Strings(gone)
+	e.renamed = map[string]string{}
+	for _, name := range gone {
+		// the contracted function no longer exists. If exactly one function without a
+		// contract has the same receiver type, the same parameter names in the same
+		// order and the same number of results, it is taken to be the renamed
+		// function (contracts list their parameter names); otherwise every property
+		// whose cone lists the contract reports a missing anchor.
+		c := e.spec.Contracts[name]
+		if nn := e.renameCandidate(name, c); nn != "" {
+			e.spec.Contracts[nn] = c
+			delete(e.spec.Contracts, name)
+			c.Name = nn
+			e.renamed[name] = nn
+			continue
+		}
+		e.missingContracts = append(e.missingContracts, name)
 	}
 	sort.Strings(e.missingContracts)
 	return nil
@@ -274,4 +292,66 @@ func (e *Engine) lookupType(name string) types.Type {
 		t = types.NewPointer(t)
 	}
 	return t
+}
+
+// renameCandidate: see loadSpecs.
+func (e *Engine) renameCandidate(old string, c *Contract) string {
+	if c.Extern || c.Callback || len(c.Params) == 0 && !strings.Contains(old, ".") {
+		// without declared parameter names there is nothing to recognise the function by
+		if len(c.Params) == 0 {
+			return ""
+		}
+	}
+	if strings.Contains(old, "$") {
+		return "" // closures are named by position
+	}
+	recv := ""
+	if k := strings.Index(old, "."); k >= 0 {
+		recv = old[:k+1]
+	}
+	var cands []string
+	for n, fn := range e.funcs {
+		if e.spec.Contracts[n] != nil || strings.Contains(n, "$") {
+			continue
+		}
+		if recv != "" && !strings.HasPrefix(n, recv) || recv == "" && strings.Contains(n, ".") {
+			continue
+		}
+		if len(fn.Params) != len(c.Params) || (len(c.Results) > 0 && fn.Signature.Results().Len() != len(c.Results)) {
+			continue
+		}
+		same := true
+		for i, p := range fn.Params {
+			if p.Name() != c.Params[i] {
+				same = false
+			}
+		}
+		if same {
+			cands = append(cands, n)
+		}
+	}
+	if len(cands) == 1 {
+		return cands[0]
+	}
+	return ""
+}
+
+// anchorAlias: the current name of a function an `at call OLD#k` anchor refers to.
+func (e *Engine) anchorTargetMatches(target, actual string) bool {
+	if target == actual {
+		return true
+	}
+	for old, nn := range e.renamed {
+		o, n := old, nn
+		if k := strings.LastIndex(o, "."); k >= 0 {
+			o = o[k+1:]
+		}
+		if k := strings.LastIndex(n, "."); k >= 0 {
+			n = n[k+1:]
+		}
+		if o == target && n == actual {
+			return true
+		}
+	}
+	return false
 }
